@@ -32,6 +32,18 @@ type layRow struct {
 	Expect int    `json:"expect"`
 	Later  int    `json:"later"`
 	Top    int    `json:"top"`
+	Empty  int    `json:"empty"` // the level that gives the name the empty value (value order "empty"), else 0
+}
+
+// emptyVal is Layers.tla's Empty: the empty string as a value
+const emptyVal = 100
+
+// str is the concrete text of the model's value x
+func vstr(x int, tail string) string {
+	if x == emptyVal {
+		return ""
+	}
+	return fmt.Sprintf("v%d%s", x, tail)
 }
 
 func (r layRow) has(l int) bool {
@@ -43,10 +55,13 @@ func (r layRow) has(l int) bool {
 	return false
 }
 func (r layRow) val(l int) int {
-	if r.Ord == "asc" {
-		return l
+	if l == r.Empty {
+		return emptyVal
 	}
-	return r.Top + 1 - l
+	if r.Ord == "desc" {
+		return r.Top + 1 - l
+	}
+	return l
 }
 
 type eng struct {
@@ -68,7 +83,12 @@ func (e *eng) note(name string, r *core.TLCResult, what string) {
 func (e *eng) modelRows() []layRow {
 	var rows []layRow
 	var wg sync.WaitGroup
-	wg.Add(5)
+	wg.Add(6)
+	go func() {
+		defer wg.Done()
+		r := core.MustFail(e.env, core.TLCOpts{Module: "Layers", Config: "Layers_emptyyields.cfg", Workers: 1})
+		e.note("Layers_emptyyields", r, "negative control (a merge in which an empty value yields to the value underneath): "+r.Violated+" violated")
+	}()
 	go func() {
 		defer wg.Done()
 		r := core.MustFail(e.env, core.TLCOpts{Module: "Layers", Config: "Layers_accumulate.cfg", Workers: 1})
@@ -89,7 +109,7 @@ func (e *eng) modelRows() []layRow {
 	go func() {
 		defer wg.Done()
 		r := core.MustHold(e.env, core.TLCOpts{Module: "Layers", Config: "Layers_ok.cfg", Workers: 1})
-		e.note("Layers_ok", r, "ImplEqualsResolve holds for env (63 subsets), variables (15), dir (8) x 2 value orders x 2 modes")
+		e.note("Layers_ok", r, "ImplEqualsResolve holds for env (63 subsets), variables (15) x 3 value orders (ascending, descending, the winner empty) and dir (8) x 2 orders, x 2 modes")
 	}()
 	go func() {
 		defer wg.Done()
@@ -102,8 +122,8 @@ func (e *eng) modelRows() []layRow {
 		e.note("Layers_pinnedvars", r, "negative control (configuration variables dropped / stage variables replace): "+r.Violated+" violated")
 	}()
 	wg.Wait()
-	if len(rows) != 344 {
-		core.Broken("LayersGen emitted %d rows, expected 344", len(rows))
+	if len(rows) != 500 {
+		core.Broken("LayersGen emitted %d rows, expected 500", len(rows))
 	}
 	return rows
 }
@@ -142,15 +162,9 @@ func find(out, prefix string) (string, bool) {
 
 func (e *eng) envCase(r layRow, i int) {
 	d := e.env.Sub("env")
-	// "regardless of the values involved": in every third row with at least two defining levels the
-	// winning level's value is the empty string (a lower level's value must not show through it)
-	emptyWin := i%3 == 1 && len(r.Defs) >= 2 && r.Expect != 0
-	v := func(l int) string {
-		if emptyWin && r.val(l) == r.Expect {
-			return ""
-		}
-		return fmt.Sprintf("v%d", r.val(l))
-	}
+	// "regardless of the values involved": in the model's third value order the winning level's value
+	// is the empty string (a lower level's value must not show through it)
+	v := func(l int) string { return vstr(r.val(l), "") }
 	var y strings.Builder
 	// the context's VARIABLES are not environment: with or without a context env level the task runs
 	// in a context whose variables name X and UNTOUCHED (every other row)
@@ -209,8 +223,8 @@ func (e *eng) envCase(r layRow, i int) {
 	os.Unsetenv("X")
 	res := e.run(d, extra, "--raw", target)
 	want := ""
-	if r.Expect != 0 && !emptyWin {
-		want = fmt.Sprintf("v%d", r.Expect)
+	if r.Expect != 0 {
+		want = vstr(r.Expect, "")
 	}
 	detail := map[string]interface{}{"yaml": y.String(), "parent_env": extra, "target": target, "stdout": res.Stdout, "stderr": tailS(res.Stderr, 500), "exit": res.Exit, "model": r}
 	add := func(kind, what string) {
@@ -228,7 +242,7 @@ func (e *eng) envCase(r layRow, i int) {
 	if r.has(6) {
 		wantLater := ""
 		if r.Later != 0 {
-			wantLater = fmt.Sprintf("v%d", r.Later)
+			wantLater = vstr(r.Later, "")
 		}
 		obs2, _ := find(res.Stdout, "OBS2 ")
 		if w2 := fmt.Sprintf("X=[%s] T=[t] U=[pass=through=x] lx=[lower-x] ltn=[lower-tn] px=[%s] pw=[/parent/says/pwd]", wantLater, wantLater); obs2 != w2 {
@@ -353,15 +367,9 @@ const varTail = "+&<>'x"
 
 func (e *eng) varCase(r layRow, i int) {
 	d := e.env.Sub("var")
-	// a variable defined with the empty value is defined: in every third row with two or more defining
-	// levels the winner's value is the empty string (a lower level's value must not show through it)
-	emptyWin := i%3 == 1 && len(r.Defs) >= 2 && r.Expect != 0
-	vs := func(x int) string {
-		if emptyWin && x == r.Expect {
-			return ""
-		}
-		return fmt.Sprintf("v%d%s", x, varTail)
-	}
+	// a variable defined with the empty value is defined: in the model's third value order the winner's
+	// value is the empty string (a lower level's value must not show through it)
+	vs := func(x int) string { return vstr(x, varTail) }
 	v := func(l int) string { return vs(r.val(l)) }
 	var y strings.Builder
 	if r.has(1) {
@@ -649,7 +657,7 @@ func (e *eng) multiEnvCase(rows [3]layRow, mode string) {
 		m := map[string]string{}
 		for k, r := range rows {
 			if r.has(l) {
-				m[fmt.Sprintf("X%d", k)] = fmt.Sprintf("v%d", r.val(l))
+				m[fmt.Sprintf("X%d", k)] = vstr(r.val(l), "")
 			}
 		}
 		return m
@@ -709,7 +717,7 @@ func (e *eng) multiEnvCase(rows [3]layRow, mode string) {
 	for k, r := range rows {
 		v := ""
 		if r.Expect != 0 {
-			v = fmt.Sprintf("v%d", r.Expect)
+			v = vstr(r.Expect, "")
 		}
 		want += fmt.Sprintf(" X%d=[%s]", k, v)
 	}
@@ -793,7 +801,7 @@ func CheckC09(env *core.Env, rep *core.Report) *core.Result {
 		atomic.AddInt64(&n, 1)
 	})
 	_ = rng
-	return e.result(int(n), int(n)-8, "every non-empty subset of the six environment levels defining X (63) x values ascending/descending with the level x run directly / as a stage, and every subset of the dir levels (8) x direct/stage x started in the project root / a sub-directory, as enumerated by LayersGen.tla with the expected winner; each is a generated project run through the binary (echo $X, $TASK_NAME, an untouched parent variable; pwd in before, command, after)",
+	return e.result(int(n), int(n)-8, "every non-empty subset of the six environment levels defining X (63) x values ascending / descending with the level / the winning level giving the empty string x run directly / as a stage, and every subset of the dir levels (8) x direct/stage x started in the project root / a sub-directory, as enumerated by LayersGen.tla with the expected winner; each is a generated project run through the binary (echo $X, $TASK_NAME, an untouched parent variable; pwd in before, command, after)",
 		map[string]interface{}{"env_cases": len(envRows), "dir_cases": len(dirRows) * 2})
 }
 
@@ -856,7 +864,7 @@ func CheckC10(env *core.Env, rep *core.Report) *core.Result {
 			atomic.AddInt64(&n, 1)
 		}
 	})
-	return e.result(int(n), int(n)-3, "every non-empty subset of the four variable levels defining w (15) x 2 value orders x direct/stage from LayersGen.tla (undefined at every effective level => the task must fail before the command runs); an undefined variable at each position of a 3-command task; argument vectors from Args.tla: 1..2 targets, optional --, 0..3 words after it over {a target's name, plain, k=v, -x, --long, --} (quick: all with <=1 word and ~18% of the rest; thorough: all, both entry forms)",
+	return e.result(int(n), int(n)-3, "every non-empty subset of the four variable levels defining w (15) x 3 value orders (ascending, descending, the winner defined with the empty value) x direct/stage from LayersGen.tla (undefined at every effective level => the task must fail before the command runs); an undefined variable at each position of a 3-command task; argument vectors from Args.tla: 1..2 targets, optional --, 0..3 words after it over {a target's name, plain, k=v, -x, --long, --} (quick: all with <=1 word and ~18% of the rest; thorough: all, both entry forms)",
 		map[string]interface{}{"variable_cases": len(varRows), "argument_vectors_run": len(sel), "argument_vectors_in_model": len(acs)})
 }
 
